@@ -116,6 +116,16 @@ class Harness:
             for jid in m:
                 if p.open_job(id=jid) not in p:
                     return f"{where}: membership test false for existing job {jid}"
+            # the long-lived project object (with whatever its in-memory state point cache holds) must agree as well
+            live = self.projects[pi]
+            for jid in m:
+                try:
+                    sp_live = json.loads(json.dumps(live.open_job(id=jid).statepoint()))
+                    csp_live = json.loads(json.dumps(dict(live.open_job(id=jid).cached_statepoint)))
+                except Exception as e:
+                    return f"{where}: opening {jid} through the live project object failed: {type(e).__name__}: {e}"
+                if sp_live != m[jid][0] or csp_live != m[jid][0]:
+                    return f"{where}: the live project object reports state point {sp_live} / cached {csp_live} for {jid}, the job's state point is {m[jid][0]}"
             for dp, dn, fn in os.walk(p.workspace):
                 for f in fn:
                     if f.endswith("~") or f.startswith("._"):
@@ -405,7 +415,22 @@ class Harness:
         pi = self.rnd.randrange(len(self.projects))
         how = self.rnd.choice(["update", "update", "restart", "delete"])
         if how == "update":
-            self.projects[pi].update_cache()
+            pr = self.projects[pi]
+            pr.update_cache()
+            # after update_cache() the persistent cache lists exactly the workspace ids, each with its true state point,
+            # and an immediate second call reports nothing to do
+            try:
+                cache = json.loads(gzip.open(pr.fn(pr.FN_CACHE), "rb").read().decode())
+            except Exception as e:
+                return f"FAIL:cache file unreadable after update_cache(): {type(e).__name__}: {e}"
+            if set(cache) != set(self.model[pi]):
+                return f"FAIL:after update_cache() the cache file lists {sorted(cache)}, the workspace holds {sorted(self.model[pi])}"
+            for jid, sp in cache.items():
+                if sp != self.model[pi][jid][0]:
+                    return f"FAIL:cache file maps {jid} to {sp}, its state point is {self.model[pi][jid][0]}"
+            again = pr.update_cache()
+            if again is not None:
+                return f"FAIL:a second update_cache() right after the first returned {again!r} instead of None"
         elif how == "restart":
             self.projects[pi] = self.signac.Project(self.projects[pi].path)
             self.handles = [(i, h) for i, h in self.handles if i != pi]
